@@ -111,6 +111,42 @@ def handleSolvers : Handler := fun st op args =>
             toString s.work, toString s.repetition, toString s.terminal, toString s.solved, toString s.hits,
             toString s.miss, truthField st mode attacker p r.result r.move]
       | _, _ => "bad-op")
+  | "dfpnnew", [slot, att, entries] =>
+    match entries.toNat? with
+    | none => some (st, "bad-op")
+    | some entries =>
+      let d : Tak.DFPN.Solver Move := Tak.DFPN.newSolver (parseColor att) entries
+      some ({ st with solvers := { st.solvers with dfpn := (slot, d) :: st.solvers.dfpn.filter (·.1 != slot) } }, "ok")
+  | "dfpnuse", [slot, tm, ptok] =>
+    match st.solvers.dfpn.lookup slot, parseTruthMode tm, parsePos ptok with
+    | some d, some mode, some (p, true) =>
+      match Tak.DFPN.takProveWith st.basis dfpnScale solverFuel d p with
+      | .error e => some (st, fmtErr e)
+      | .ok (r, s, d') =>
+        let out := " ".intercalate [evalStr r.result, fmtOptMove r.move, toString r.proof, toString r.disproof,
+          toString s.work, toString s.repetition, toString s.terminal, toString s.solved, toString s.hits,
+          toString s.miss, truthField st mode d'.attacker p r.result r.move]
+        some ({ st with solvers := { st.solvers with dfpn := (slot, d') :: st.solvers.dfpn.filter (·.1 != slot) } }, out)
+    | none, _, _ => some (st, "no-solver")
+    | _, _, _ => some (st, "bad-op")
+  | "pnnew", [slot, mn, pres, pn2, md] =>
+    match mn.toNat?, md.toInt? with
+    | some mn, some md =>
+      let cfg : Tak.PN.Cfg := { maxNodes := UInt64.ofNat mn, preserveSolved := pres != "0", pn2 := pn2 != "0", maxDepth := md }
+      some ({ st with solvers := { st.solvers with pn := (slot, cfg) :: st.solvers.pn.filter (·.1 != slot) } }, "ok")
+    | _, _ => some (st, "bad-op")
+  | "pnuse", [slot, tm, ptok] =>
+    match st.solvers.pn.lookup slot, parseTruthMode tm, parsePos ptok with
+    | some cfg, some mode, some (p, true) =>
+      match Tak.PN.takProveWith st.basis solverFuel cfg p with
+      | .error e => some (st, fmtErr e)
+      | .ok (r, s, cfg') =>
+        let out := " ".intercalate [evalStr r.result, fmtOptMove r.move, toString r.depth, toString r.proof, toString r.disproof,
+          toString s.nodes, toString s.proved, toString s.disproved, toString s.dropped, toString s.expanded,
+          toString s.maxDepth, truthField st mode p.toMove p r.result r.move]
+        some ({ st with solvers := { st.solvers with pn := (slot, cfg') :: st.solvers.pn.filter (·.1 != slot) } }, out)
+    | none, _, _ => some (st, "no-solver")
+    | _, _, _ => some (st, "bad-op")
   | "pngraph", [cap, ptok] =>
     match cap.toNat?, parsePos ptok with
     | some cap, some (p, true) =>
